@@ -50,7 +50,10 @@ class C20(LineCheck):
         "inotify_drv.c: inotify_init/add_watch/rm_watch/read/close are interposed (--wrap); inotify_init returns a real eventfd registered with "
         "the real epoll; the fd handler is called directly instead of through iv_main; iv_fatal is caught with longjmp",
         "the event bytes of a read are built by the harness with the real struct inotify_event layout and by the model with its own encoder",
-        "driver-level (OCaml, unproved) sanity checks around the Coq monitor: rc/dump transitions of top-level actions, w->mask seen by handlers",
+        "driver-level (OCaml, unproved) sanity checks around the Coq monitors (mon_feed per read, mon_act per top-level action, dumps_ok): rc/dump "
+        "transitions of top-level actions other than the wd -1 clauses, w->mask seen by handlers",
+        "the scenario's oracle: the wd in W<w>@<i>:<wd>:<mask> is what the interposed inotify_add_watch returns in that call; the monitors take "
+        "it (not the implementation's rc or tree) as the truth about whether the registration may succeed",
     ]
     assumptions = [
         "a read returns whole records only (kernel contract): buffer = encoding of a list of events with len = number of name bytes, "
@@ -62,7 +65,9 @@ class C20(LineCheck):
             "re-register self, re-register on a wd that comes later, new watch on a later wd, other instance, double unregister) x every position "
             "of multi-event reads x {plain, one-shot watch, IN_IGNORED event, IN_IGNORED for a later watch} x 2..4 watches, names of len 0/16/32/48/.. "
             "and odd lengths; (b) seeded random histories over up to 3 instances and 6 watches with random scripts, unknown wds, wd -1, duplicate wds, "
-            "failing inotify_init/add_watch, EINTR/EAGAIN/EIO/empty reads; (c) fresh-instance unregister shapes; (d) reads of exactly 65536 bytes and "
+            "failing inotify_init/add_watch, EINTR/EAGAIN/EIO/empty reads; (b') registrations whose inotify_add_watch answers -1 (top level, first call, "
+            "inside handler scripts, on another instance, of an id that was dropped, followed by unregister / re-register of the same id) followed in "
+            "the same read and the next one by events with wd -1 (IN_Q_OVERFLOW and other masks) and other negative wds; (c) fresh-instance unregister shapes; (d) reads of exactly 65536 bytes and "
             "long names.  non-trivial = some read delivers >= 2 events, or a handler executes (rc 0) a register/unregister, or a watch is dropped "
             "before its handler; distinct = distinct case text")
 
@@ -230,6 +235,83 @@ class C20(LineCheck):
                     toks.append("F%d=%s/%s" % (i, pre, "/".join(evs)))
         return " ".join(toks)
 
+    NEG_WDS = [-1, -1, -1, -2, -5, -2147483648]
+    FAIL_SHAPES = ["top", "top_first", "script", "script_then_unreg", "script_rereg", "both", "other_inst", "after_drop"]
+
+    def failed_registration(self, rng, shape):
+        """a registration for which inotify_add_watch answers -1 (oracle -1) at top level and / or inside a handler
+        script, then events with wd -1 (queue overflow, IN_Q_OVERFLOW = 0x4000, and other masks including IN_IGNORED)
+        and other negative wds between events for the live watches, in the same read and in a later one; the watch id
+        whose registration failed is unregistered (guard: skipped) and registered again afterwards."""
+        nw = rng.choice([1, 2, 3])
+        wds = rng.sample([0, 1, 2, 3, 5, 8, 1000, 2147483647], nw)
+        masks = [rng.choice([0x100, 0x2, 0xfff]) for _ in range(nw)]
+        f = nw + 1                                  # the watch whose registration fails
+        fmask = rng.choice([0x100, 0xfff, 0x100 | ONESHOT])
+        free_wd = rng.choice([4, 77, 2147483646])
+
+        def negev(ck):
+            wd = rng.choice(self.NEG_WDS)
+            if wd == -1 and rng.random() < 0.6:
+                return ev(-1, 0x4000, ck, "")
+            return ev(wd, rng.choice([0x2, 0x100, 0x4000, IGNORED]), ck, self.rname(rng) if rng.random() < 0.3 else "")
+
+        toks = ["I1"]
+        if shape == "other_inst":
+            toks += ["I2", wreg(f + 1, 2, wds[0], 0x100)]
+        if shape == "top_first":
+            toks.append(wreg(f, 1, -1, fmask))      # the failing call is the first one: empty set
+        for k in range(nw):
+            toks.append(wreg(k + 1, 1, wds[k], masks[k]))
+        if shape in ("top", "both"):
+            toks.append(wreg(f, 1, -1, fmask))
+        if shape == "other_inst":
+            toks.append(wreg(f, 2, -1, fmask))
+        if shape == "after_drop":
+            # watch 1 is dropped by an IN_IGNORED event; its id then fails to register again
+            toks.append("F1=/" + ev(wds[0], IGNORED, 40, ""))
+            toks.append(wreg(1, 1, -1, fmask))
+        # the first read: events for live watches with negative-wd events in between; in the script shapes the handler
+        # at position j makes the failing call, the negative wds follow it
+        burst = rng.choice([1, 2, 3, 5])
+        j = rng.randrange(burst)
+        first_live = 1 if shape == "after_drop" else 0
+        live = list(range(first_live, nw)) or [0]
+        events = []
+        if rng.random() < 0.5:
+            events.append(negev(90))
+        for pos in range(burst):
+            k = rng.choice(live)
+            events.append(ev(wds[k], rng.choice([0x2, 0x100, 0x200]), pos + 1, self.rname(rng) if rng.random() < 0.3 else ""))
+            if pos == j:
+                hw = k + 1
+                events.append(ev(-1, 0x4000, 60, ""))
+            elif rng.random() < 0.5:
+                events.append(negev(70 + pos))
+        if shape in ("script", "both", "other_inst", "after_drop"):
+            acts = [wreg(f, 1, -1, fmask)]
+        elif shape == "script_then_unreg":
+            acts = [wreg(f, 1, -1, fmask), "U%d" % f, rng.choice(["U%d" % hw, "J1", wreg(f, 1, -1, 0x2)])]
+        elif shape == "script_rereg":
+            acts = [wreg(f, 1, -1, fmask), wreg(f, 1, free_wd, fmask)]
+            events.append(ev(free_wd, 0x2, 61, ""))
+            events.append(ev(-1, 0x4000, 62, ""))
+        else:
+            acts = []
+        if acts:
+            toks.append("S%d@%d=%s" % (hw, j + 1, ",".join(acts)))
+            if rng.random() < 0.3:
+                toks.append("S%d@61=%s" % (f, rng.choice(["U%d" % f, wreg(f, 1, -1, 0x2), "J1"])))
+        toks.append("F%d=%s/%s" % (1, rng.choice(["", "", "e"]), "/".join(events)))
+        # afterwards: the failed id has no struct (unregister is skipped), can be registered, fails again; a second read
+        tail = [rng.choice(["U%d" % f, wreg(f, 1, free_wd, 0x100), wreg(f, 1, -1, 0x100)]),
+                "F1=/" + "/".join([ev(-1, 0x4000, 63, "")] + [ev(wds[k], 0x2, 50 + k, "") for k in range(nw)] + [negev(64), ev(free_wd, 0x2, 65, "")]),
+                rng.choice(["U%d" % f, wreg(f, 1, -1, 0x100), "F1=a"]), "J1"]
+        if shape == "other_inst":
+            tail.insert(1, "F2=/" + "/".join([ev(-1, 0x4000, 66, ""), ev(wds[0], 0x2, 67, "")]))
+            tail.append("J2")
+        return " ".join(toks + tail)
+
     def fresh_cases(self):
         return [
             "I1 J1", "I1 J1 I1 J1", "I1 I2 J2 J1", "I1 I2 J1 J2", "I1! I1 J1", "I1 F1=a J1", "I1 F1=ea J1", "I1 F1=eeeea J1",
@@ -246,6 +328,8 @@ class C20(LineCheck):
             "I1 W2@1:1000:100 F1=e/8:8000:2:c331ebfbbe4aa3571cce472fc0bf2cb2e41ddd99/1000:40000100:3:",
             "I1 F1=e/1000:200:3:736576656e7465656e5f63686172735f78z15", "I1 W1@1:1:fff W2@1:8:fff S2@1=U1 F1=/8:8000:1:",
             "I1 F1=/1000:2:51: J1",
+            # failed registration (inotify_add_watch answers -1), then a queue-overflow event (wd -1): M12 of docs/MUTATION_SURVEY.md
+            "I1 W1@1:-1:100 F1=/-1:4000:0: J1", "I1 W1@1:3:100 S1=W2@1:-1:2 F1=/3:2:0:/-1:4000:0: J1",
         ]
 
     def big_cases(self, rng):
@@ -292,6 +376,12 @@ class C20(LineCheck):
                                 cases.append(self.systematic(rng, nw, burst, j, choice, variant))
                                 self.choice_count[choice] = self.choice_count.get(choice, 0) + 1
         self.n_sys = len(cases) - n0
+        # failed registrations (oracle -1) followed by events with wd -1 / other negative wds: every shape, every run
+        n1 = len(cases)
+        for _ in range(8 if ctx.tier == "quick" else 80):
+            for shape in self.FAIL_SHAPES:
+                cases.append(self.failed_registration(rng, shape))
+        self.n_failreg = len(cases) - n1
         nh = 500 if ctx.tier == "quick" else 40000
         for _ in range(nh):
             cases.append(self.random_history(rng))
@@ -329,7 +419,11 @@ class C20(LineCheck):
         nev = [t.count("/") for t in feeds]
         acts_in_scripts = [a for t in toks if t[0] == "S" for a in t.split("=", 1)[1].split(",")]
         return {"corpus_cases": self.n_corpus, "fresh_instance_and_regression_shapes": self.n_fresh, "systematic_choice_cases": self.n_sys,
-                "systematic_by_choice": self.choice_count, "random_histories": self.n_hist, "size_boundary_cases": self.n_big,
+                "systematic_by_choice": self.choice_count, "failed_registration_then_negative_wd_cases": self.n_failreg,
+                "registrations_with_oracle_minus1": sum(1 for t in toks + acts_in_scripts if t[0] == "W" and ":-1:" in t),
+                "events_with_wd_minus1": sum(len(re.findall(r"/-1:", t)) for t in feeds),
+                "events_with_other_negative_wd": sum(len(re.findall(r"/-(?!1:)\d+:", t)) for t in feeds),
+                "random_histories": self.n_hist, "size_boundary_cases": self.n_big,
                 "reads": len(feeds), "reads_with_ge2_events": sum(1 for n in nev if n >= 2), "events": sum(nev),
                 "reads_with_EINTR": sum(1 for t in feeds if "=e" in t), "reads_EAGAIN": sum(1 for t in feeds if re.search(r"=e*a", t)),
                 "reads_fatal": sum(1 for t in feeds if re.search(r"=e*(x|$)", t)),
